@@ -314,7 +314,7 @@ fn shard(seed: u64, shard: u64, shards: u64, tier: Tier) -> Tally {
         t.add("family_strings_total", fam.len() as u64);
     }
     // random renderings of random instants, and mutations of them
-    for i in 0..tier.n(800, 6000) {
+    for i in 0..tier.n(800, 40_000) {
         let mut r = Rng::keyed(seed, "C16", "random", shard, i);
         let mut tt = crate::gen::gen_instant(&mut r);
         if r.chance(1, 3) {
